@@ -168,19 +168,34 @@ def parseVT (s : String) : Option VTable :=
     | _ => none
 
 inductive Sent where
-  | ok (b : Int) (addr : String) (v : Int)
+  | ok (b : Int) (addr : String) (v : Int) (body : String)
   | err (k : String)
+
+/-- the parts of the body Prepare derives from the negotiated version (model: regenerated decisions), rendered like
+the driver renders what the fake broker decoded: `#m<magic>` for Produce, `#<MemberID>/<members>` for LeaveGroup -/
+def bodyModel (a : ApiMethods) (groups : List String) (r : ReqInfo) (v : Int) : String :=
+  if a.pkg == "produce" then (if r.tps.any (fun (_, ps) => !ps.isEmpty) then s!"#m{produceMagic v 0}" else "")
+  else if a.pkg == "describeconfigs" then
+    let b (x : Bool) : String := if x then "1" else "0"
+    s!"#s{b (optionArrives a.pkg "IncludeSynonyms" 1 v)}d{b (optionArrives a.pkg "IncludeDocumentation" 3 v)}"
+  else if a.pkg == "describegroups" then
+    s!"#a{if optionArrives a.pkg "IncludeAuthorizedOperations" 3 v then "1" else "0"}"
+  else if a.pkg == "leavegroup" then
+    let g := groups.headD ""
+    let w := leaveGroupWire v "" [g ++ "-a", g ++ "-b"]
+    s!"#{dash w.1}/{dash (".".intercalate w.2)}"
+  else ""
 
 def showAddr (a : Addr) : String := s!"{a.1}:{a.2}"
 
-def sendOne (a : ApiMethods) (boot : Int) (c : Cluster) (down : List Int) (vt : VTable) (r : ReqInfo) : Sent :=
+def sendOne (a : ApiMethods) (boot : Int) (c : Cluster) (down : List Int) (vt : VTable) (groups : List String) (r : ReqInfo) : Sent :=
   -- the pool's groups: by `conns_invariant`, one per broker of the layout at the layout's address
   let conns : List (Int × Addr) := c.brokers.map fun (k, b) => (k, b.addr)
   let atB (b : Int) (addr : String) : Sent :=
     if down.contains b then .err "dial" else
     let table := ((vt.lookup b).getD []).map fun e => (a.apiKey, e.1, e.2)
     match requestVersion clientOf (negotiate clientOf table) a.apiKey with
-    | some v => .ok b addr v
+    | some v => .ok b addr v (bodyModel a groups r v)
     | none => .err "unsupported"
   match route sendRequestCases a c conns r with
   | .broker id addr => atB id (showAddr addr)
@@ -188,7 +203,7 @@ def sendOne (a : ApiMethods) (boot : Int) (c : Cluster) (down : List Int) (vt : 
   | .err e => .err (errName e)
 
 def showSent (xs : List Sent) (overallErr : Option String) : String :=
-  let oks := xs.filterMap fun | .ok b a v => some s!"b{b}~{a}@v{v}" | _ => none
+  let oks := xs.filterMap fun | .ok b a v body => some s!"b{b}~{a}@v{v}{body}" | _ => none
   let oks := sortBy (fun a b => a < b) oks
   match overallErr, oks with
   | some e, [] => s!"err {e}"
@@ -212,7 +227,7 @@ def withLookups (body : String) (fcs : List String) : String :=
 def sendBody (a : ApiMethods) (boot : Int) (c : Cluster) (down : List Int) (vt : VTable) (coords : List Int) (q : Req) : String :=
   match KV.Split.parts roundTripCases a c coords q.info with
   | some (ps, rule) =>
-    let rs := ps.map (sendOne a boot c down vt)
+    let rs := ps.map (sendOne a boot c down vt q.groups)
     match rule with
     | .allFailed =>
       -- ListOffsets Merge: an error only when every part failed
@@ -223,7 +238,7 @@ def sendBody (a : ApiMethods) (boot : Int) (c : Cluster) (down : List Int) (vt :
       showSent rs (if a.pkg == "listgroups" then (firstErr rs).map fun _ => "some" else firstErr rs)
   | none =>
     let r := { q.info with coordinator := coords.headD (-1) }
-    let s := sendOne a boot c down vt r
+    let s := sendOne a boot c down vt q.groups r
     showSent [s] (firstErr [s])
 
 def sendModel (a : ApiMethods) (boot : Int) (m : MResponse) (down : List Int) (vt : VTable) (coords : List Int) (q : Req) : String :=
@@ -244,10 +259,45 @@ def parseSent (s : String) : Option (List (Int × String × Int) × Option Strin
       match (e.drop 1).toString.splitOn "@v" with
       | [b, v] =>
         match b.splitOn "~" with
-        | [b, a] => do let b ← b.toInt?; let v ← v.toInt?; pure (b, a, v)
+        | [b, a] => do let b ← b.toInt?; let v ← ((v.splitOn "#").headD "").toInt?; pure (b, a, v)
         | _ => none
       | _ => none
     pure (oks, err)
+
+/-- (version, body format) of every delivered request: the text after `#` in its token -/
+def parseBodies (s : String) : List (Int × String) :=
+  let okPart := match s.splitOn " err " with
+    | [a, _] => a
+    | _ => if s.startsWith "err " then "-" else s
+  (splitD okPart ",").filterMap fun e =>
+    match e.splitOn "@v" with
+    | [_, v] => match v.splitOn "#" with
+      | [v, f] => v.toInt?.map fun v => (v, f)
+      | _ => none
+    | _ => none
+
+/-- the body clause: what the broker decoded fits the version in the header (Spec: `magicOK`, `leaveGroupBodyOK`) -/
+def bodyOK (key : Nat) (q : Req) (impl : String) : Bool :=
+  (parseBodies impl).all fun (v, f) =>
+    if key == 0 then
+      f.startsWith "m" && ((f.drop 1).toString.splitOn ".").all fun k => match k.toInt? with
+        | some k => KV.Spec.Routing.magicOK v k
+        | none => false
+    else if key == 32 then
+      match f.toList with
+      | ['s', s, 'd', d] => KV.Spec.Routing.optionOK 32 "IncludeSynonyms" v (s == '1') &&
+          KV.Spec.Routing.optionOK 32 "IncludeDocumentation" v (d == '1')
+      | _ => false
+    else if key == 15 then
+      match f.toList with
+      | ['a', x] => KV.Spec.Routing.optionOK 15 "IncludeAuthorizedOperations" v (x == '1')
+      | _ => false
+    else if key == 13 then
+      let g := q.groups.headD ""
+      match f.splitOn "/" with
+      | [id, ms] => KV.Spec.Routing.leaveGroupBodyOK v [g ++ "-a", g ++ "-b"] (if id == "-" then "" else id) (splitD ms ".")
+      | _ => false
+    else true
 
 def removeOne (x : Int) : List Int → Option (List Int)
   | [] => none
@@ -320,7 +370,7 @@ def sendHolds (key : Nat) (split : Bool) (boot : Int) (m : MResponse) (down : Li
         if live m.controller then err.isNone && oks.map (·.1) == [m.controller] else true
       | some .anyBroker => err.isNone && oks.all (fun (b, _, _) => b == boot || listed m b)
       | none => true
-    addrOK && verOK && routeOK
+    addrOK && verOK && routeOK && bodyOK key q impl
 
 /-! ### `follow`: the refresh loop under scripted faults -/
 
@@ -413,6 +463,21 @@ def rtcreateModel (name : String) (np : Nat) (m : MResponse) : String :=
   let seen := if wait.isEmpty then normalize m else cache
   s!"code={code} after={showMTopics (filterMetadata (some [name]) seen).topics}"
 
+open KV.Discover KV.RoundTrip in
+/-- the pool's first refresh fails in the given way, the next one is answered: can metadata requests be served again? -/
+def recoverModel (kind : String) : String :=
+  let m0 : MResponse := ⟨0, [⟨0, "b0", 9092, ""⟩], "", 0, [⟨0, "t", false, [⟨0, 0, 0, [], [], []⟩]⟩]⟩
+  let first : List DEvent := match kind with
+    | "dialfail" => [.connFail]
+    | "stall" => [.tick, .timeout]
+    | _ => [.tick, .reqError]
+  match run discoverExits {} (first ++ [.tick, .answer m0]) with
+  | some s =>
+    let thenOK := s.alive && (match metadataDecision s.pool ⟨some ["t"], false⟩ with | .fromCache _ => true | _ => false)
+    let prodOK := s.alive && (s.pool.layout.topics.lookup "t").isSome
+    s!"then={if thenOK then "ok" else "err"} produce={if prodOK then "ok" else "err"}"
+  | none => "then=err produce=err"
+
 /-! ### dispatcher -/
 
 def kv (pfx : String) (s : String) : Option String :=
@@ -497,6 +562,10 @@ def step (line : String) : String :=
         -- monitor: the topic the cluster now has is what the cache reports right after CreateTopics returned
         answer want (impl == want)
       | _, _ => "bad-op"
+    | ["recover", _, first] =>
+      match kv "first=" first with
+      | some k => answer (recoverModel k) (impl == "then=ok produce=ok")
+      | none => "bad-op"
     | ["follow", _, faults] =>
       match kv "faults=" faults with
       | some fs => answer (followModel (splitD fs ",")) (impl == "within=1 gap=1")
